@@ -58,6 +58,29 @@ func (f *fnnCtx) valueFNN(v ssa.Value, fn *ssa.Function, depth int) (bool, strin
 					return true, ""
 				}
 			}
+			// or: the clone itself is tested, and used only where it is known to be non-nil
+			allGuarded, nUse := true, 0
+			for _, r := range referrersOf(x) {
+				if bo, ok := r.(*ssa.BinOp); ok && (isNilConst(bo.X) || isNilConst(bo.Y)) {
+					continue
+				}
+				if _, ok := r.(*ssa.DebugRef); ok {
+					continue
+				}
+				nUse++
+				g := false
+				for _, cm := range cmpsAt(r.Block()) {
+					if cm.Op == token.NEQ && ((cm.X == ssa.Value(x) && isNilConst(cm.Y)) || (cm.Y == ssa.Value(x) && isNilConst(cm.X))) {
+						g = true
+					}
+				}
+				if !g {
+					allGuarded = false
+				}
+			}
+			if allGuarded && nUse > 0 {
+				return true, ""
+			}
 			return false, "maps.Clone of a possibly-nil map returns nil"
 		}
 		o := origin(cal)
